@@ -102,6 +102,11 @@ inline void gen_number(vf::Rng &r, std::string &o) {
             static const char *b[] = {"9223372036854775807", "9223372036854775808", "18446744073709551615",
                                       "18446744073709551616", "9007199254740993", "0.1", "1e-7", "123456789012345678901234567890"};
             o += b[r.below(8)];
+            if (r.chance(1, 3) && o.find_first_of(".e") == std::string::npos) {
+                // a long integer mantissa continued as a real, with either exponent letter
+                if (r.chance(1, 2)) o += "." + std::to_string(r.below(1000));
+                else o += std::string(1, r.chance(1, 2) ? 'E' : 'e') + (r.chance(1, 3) ? "-" : (r.chance(1, 2) ? "+" : "")) + std::to_string(r.below(30));
+            }
         }
     }
 }
@@ -134,7 +139,17 @@ inline void gen_object(vf::Rng &r, std::string &o, const Opts &op, unsigned dept
         }
         o += '"';
         if (r.chance(1, 5)) o += "k"; // likely duplicate key
-        else gen_string_body(r, o, op);
+        else if (r.chance(1, 25)) {
+            // names with equal hashes where the stored name is a prefix of the later one: plain ("s" then "sh") and through
+            // NUL units (the hash of "X" equals that of "X\0\0", of "" that of "\0"): only the length tells them apart
+            static const char *fam[][2] = {{"s", "sh"}, {"t", "ti"}, {"l", "la"}, {"X", "X\\u0000\\u0000"}, {"M", "M\\u0000\\u0000\\u0000"}, {"", "\\u0000"}};
+            const char *const *f        = fam[r.below(6)];
+            o += f[0];
+            o += "\":";
+            gen_number(r, o);
+            o += ",\"";
+            o += f[r.chance(1, 4) ? 0 : 1];
+        } else gen_string_body(r, o, op);
         o += '"';
         ws(r, o, op);
         o += ':';
